@@ -8,7 +8,9 @@
    (`while excess > 0 and precomp != 0`) is structural recursion over that reversed prefix.
    The unprocessed suffix still holds the initial values, which is why `InitCond_th[ii]`,
    `thnew[ii]` and the incoming `FluxOut[ii]` are the same list heads when compartment ii is entered
-   (the back-up loop started from compartment j only writes indices <= j). *)
+   (the back-up loop started from compartment j only writes indices <= j).
+   `InitCond_th_fc_Adj[ii]` is modelled lazily (inf_theta0_opt): a too short th_fc_Adj raises IndexError only in the
+   branches that read it.  zBund is FieldMngt.z_bund as stored, i.e. mm; the literal threshold is 0.001. *)
 From AC Require Import Num Params.
 
 Section M.
